@@ -9,17 +9,19 @@ import (
 )
 
 type file struct {
-	id    string
-	child *file
-	path  string
-	docs  []*Document
+	id       string
+	child    *file
+	path     string
+	loadPath string
+	docs     []*Document
 }
 
 func (p *Parser) loadFile(path string, child *file) (*file, error) {
 	f := &file{
-		id:    path,
-		child: child,
-		path:  path,
+		id:       path,
+		child:    child,
+		path:     path,
+		loadPath: path,
 	}
 
 	if child != nil {
@@ -88,6 +90,12 @@ func (p *Parser) loadFile(path string, child *file) (*file, error) {
 }
 
 func (p *Parser) loadFileAndParents(path string, child *file) ([]*file, error) {
+	for c := child; c != nil; c = c.child {
+		if c.loadPath == path {
+			return nil, fmt.Errorf("%s: $parent: %w", path, ErrCircularRef)
+		}
+	}
+
 	f, err := p.loadFile(path, child)
 	if err != nil {
 		return nil, err
